@@ -407,6 +407,35 @@ func (x *fx) contractCall(fc *FuncContract, key string, names []string, ptypes [
 		}
 		x.cur = e.havoc(x.cur, sp)
 	}
+	if fn != nil {
+		// call logs the callee may advance (other than its own, handled below)
+		// are unknown afterwards unless its postconditions say otherwise
+		keys := ec.logKeysBody(fn)
+		var hit []string
+		for _, gk := range sortedKeys(x.cur.ghost) {
+			if strings.HasPrefix(gk, "fret:") {
+				continue
+			}
+			if strings.HasPrefix(gk, "n:"+key) || strings.HasPrefix(gk, "ret:"+key+":") || strings.HasPrefix(gk, "arg:"+key+":") {
+				continue
+			}
+			if logHit(keys, gk) {
+				hit = append(hit, gk)
+			}
+		}
+		if len(hit) > 0 {
+			if x.cur == pre {
+				x.cur = x.cur.clone()
+			}
+			for _, gk := range hit {
+				prev := x.cur.ghost[gk]
+				x.cur.ghost[gk] = e.declare("ghost:"+gk, e.ghostSort(gk))
+				if strings.HasPrefix(gk, "n:") {
+					e.assume(fmt.Sprintf("(>= %s %s)", x.cur.ghost[gk], prev))
+				}
+			}
+		}
+	}
 	out := make([]Term, results.Len())
 	post := &Env{e: e, vars: map[string]TV{}, st: x.cur, old: pre, allocOld: pre.alloc, pkg: env.pkg, fx: x, hyp: true}
 	for k, v := range env.vars {
